@@ -21,7 +21,8 @@ ASSUMPTIONS = _x1.X1_ASSUMPTIONS + [
 F = ("raise", "fail")
 _q = ["scan2", "cleanup", "bare", "fly1", "monitor1", "subs", "twomotors", "flyonly", "monitor2"]
 SPECS = {
-    "quick": [spec(k, bound=1, faults=F) for k in _q] + [spec(k, bound=1, a=1) for k in ("scan2", "bare", "twomotors")] + [spec("bare2", bound=1, faults=F)],
+    "quick": [spec(k, bound=1, faults=F) for k in _q] + [spec(k, bound=1, a=1) for k in ("scan2", "bare", "twomotors")] + [spec("bare2", bound=1, faults=F)]
+    + [spec("bare", [("pause",), ("abort",), ("suspend", "none")], bound=2)],  # pairs of requests on the engine-closed scenario
     "thorough": [spec(k, bound=1, faults=F, a=a) for k in _q + ["count2", "grid22s", "relscan2", "nested"] for a in (0, 1)]
     + [spec(k, bound=2, faults=F) for k in ("bare", "flyonly")]
     + [spec("twomotors", [("pause",), ("abort",), ("suspend", "none")], bound=2)],
